@@ -83,7 +83,9 @@ def reachable_v3(hs, g):
 PATHS = ['meta_set', 'meta_append', 'meta_extend', 'meta_add_item', 'meta_update', 'colmeta_set', 'colmeta_append', 'col_assign',
          'append', 'insert', 'extend', 'iadd', 'setitem',
          # rows may carry tags for which no column is declared (yet): they are part of the grid all the same
-         'append_undeclared', 'extend_undeclared', 'setitem_undeclared']
+         'append_undeclared', 'extend_undeclared', 'setitem_undeclared',
+         # positions that list.insert clamps: a refused store must leave the grid as it was there too
+         'insert_negative', 'insert_beyond_end']
 
 
 # earlier activity of the same process (other grids, other versions): the gate of a grid must not depend on it.  Every
@@ -194,7 +196,7 @@ class GateSpec(H.Spec):
         for p in PATHS:
             if p in ('setitem', 'setitem_undeclared') and len(g) == 0:
                 continue
-            if p in ('append', 'insert', 'extend', 'iadd', 'append_undeclared', 'extend_undeclared') and len(g) >= 2:
+            if p in ('append', 'insert', 'extend', 'iadd', 'append_undeclared', 'extend_undeclared', 'insert_negative', 'insert_beyond_end') and len(g) >= 2:
                 continue
             for k in KINDS:
                 ops.append((p, k))
@@ -244,6 +246,10 @@ class GateSpec(H.Spec):
             g += [{'d': val}]
         elif p == 'setitem':
             g[0] = {'c': val}
+        elif p == 'insert_negative':
+            g.insert(-1, {'c': val})
+        elif p == 'insert_beyond_end':
+            g.insert(len(g) + 3, {'d': val})
         elif p == 'append_undeclared':
             g.append({'c': 1.0, 'e': val})
         elif p == 'extend_undeclared':
@@ -265,6 +271,7 @@ class GateSpec(H.Spec):
                 return False
             return True
         before = reachable_v3(hs, g)
+        rows_before = [id(r) for r in g]
         got = H.outcome(self.apply, g, op)
         if hist is None:
             return True
@@ -280,6 +287,9 @@ class GateSpec(H.Spec):
                 return False
             if after != before and not (p in ('extend', 'extend_undeclared')):
                 st.fail('refused-store-left-3.0-only-value-in-grid', sig, case, {'op': list(op), 'reachable_3.0_data': after})
+                return False
+            if [id(r) for r in g] != rows_before and p not in ('extend', 'extend_undeclared', 'iadd'):
+                st.fail('refused-store-changed-the-rows-of-the-grid', sig, case, {'op': list(op), 'rows_before': len(rows_before), 'rows_after': len(g)})
                 return False
         else:
             if got[0] == 'raise':
